@@ -23,10 +23,12 @@ var registry = map[string]checkDef{
 	"C09": {"exploration", C09},
 	"C10": {"exploration", C10},
 	"C11": {"exploration", C11},
+	"C13": {"fault_enumeration", C13},
 	"C14": {"exploration", C14},
 	"C16": {"exploration", C16},
 	"C15": {"exploration", C15},
 	"C17": {"exploration", C17},
+	"C18": {"exploration", C18},
 	"C19": {"exploration", C19},
 }
 
